@@ -30,7 +30,7 @@ func genReplacerTree() string {
 			return nil
 		}
 		rel, _ := filepath.Rel(repo, p)
-		_, f := parseFile(rel)
+		fset, f := parseFile(rel)
 		if f == nil {
 			return nil
 		}
@@ -53,7 +53,8 @@ func genReplacerTree() string {
 					if id, ok := se.X.(*ast.Ident); ok && (id.Name == "strings" || id.Name == "bytes") {
 						return true
 					}
-					rows = append(rows, "("+leanStr(filepath.ToSlash(rel))+", "+leanStr(fd.Name.Name)+", "+leanStr(se.Sel.Name)+", "+leanStr(exprText(ce.Args[0]))+")")
+					fname, arg := c18CallRow(rel, fset, fd, ce)
+					rows = append(rows, "("+leanStr(filepath.ToSlash(rel))+", "+leanStr(fname)+", "+leanStr(se.Sel.Name)+", "+leanStr(arg)+")")
 				}
 				return true
 			})
